@@ -463,7 +463,7 @@ def typed_local(e):
 class C03(Prop):
     id = "C03"
     title = "Compiled bytecode computes exactly what LPC semantics define"
-    lean_modules = ["NV.C03.Props", "NV.C03.Props2", "NV.C03.Props3", "NV.C03.Props4", "NV.C03.Witness"]
+    lean_modules = ["NV.C03.Props", "NV.C03.Props2", "NV.C03.Props3", "NV.C03.Props4", "NV.C03.Props5", "NV.C03.Witness"]
     theorems = []          # filled below
     witness_theorems = []
     consts = [("oldRangeBehavior", "NV_OLD_RANGE"), ("switchCaseSize", "SWITCH_CASE_SIZE")]
@@ -1193,6 +1193,7 @@ PROP.theorems = ["NV.C03." + t for t in (
     "sliceArray_eq_slice", "range_agrees_repaired", "range_quirks_irrelevant", "range_agrees_partial",
     "extract_agrees_repaired", "extract_quirks_irrelevant", "extract_agrees_partial",
     "fixup_spec", "bsearch_good", "log2floor_spec", "switch_sorted_agrees", "good_unique",
+    "for_eq_while", "loop_forms_agree",
     "wrap_id", "wrap_range", "tdiv_range", "tmod_range", "idiv_eq", "imod_eq")]
 PROP.witness_theorems = ["NV.C03." + t for t in (
     "witness_num_opeq_real", "witness_addeq_num_str", "assignop_agrees_Full_false", "witness_buf_store_zero",
